@@ -485,12 +485,35 @@ def rule_r4(facts, col, rule_id="C17.R4"):
     return n
 
 
+def rule_r5(facts, col, rule_id="C17.R5"):
+    """what is acknowledged is what was written: a stream file sink's work() takes ONE read window per call - the bytes
+    it serialises and the samples it consumes belong to the same window.  A second read_buf() after the write ("don't hold the
+    window across file I/O") sees whatever the producer committed meanwhile; consuming by that window's length acknowledges
+    samples that were never written."""
+    for body in facts.impl_bodies(BLOCK_TRAIT, "work"):
+        if not (body.self_adt or "").startswith("file_sink::"):
+            continue
+        v = effects.work_view(facts, body, methods=True)
+        rb = [bb for bb, t in v.calls() if any(q == "stream::ReadStream::read_buf" for q in Body.callee_qs(t))]
+        if not rb:
+            continue
+        key = "%s:one-window" % body.q
+        if len(rb) == 1:
+            col.ok(rule_id, key, v.where(rb[0]), "one read window per call")
+        else:
+            col.bad(rule_id, key, v.where(rb[1]),
+                    "work() takes %d read windows in one call: samples committed between the acquisitions are counted in the later "
+                    "window but were not part of what was written, so consuming by it acknowledges unwritten samples" % len(rb), {})
+
+
 def run(ctx):
     facts = ctx.facts("default")
     ctx.anchor("C17", MODE_ADT in facts.adts, "enum file_sink::Mode")
     rule_r1(facts, ctx)
     rule_r2(facts, ctx)
     rule_r3(facts, ctx)
+    rule_r5(facts, ctx)
+    ctx.floor("C17.R5", 1, "FileSink::work")
     rule_r4(facts, ctx)
     ctx.floor("C17.R4", 4, "functions of src/file_sink.rs (constructors, work(), closures)")
     ctx.floor("C17.R3", 1, "FileSink::work's consume")
